@@ -296,7 +296,8 @@ def harness_findings(x):
         else:
             out.append(("C12:no-reconnect-within-bound", "after %d close(s) by the server the client was not back on %d open connections within the bound "
                         "(2 ping periods + 1 s per failed dial + slack)" % (r["drops"], r["nconns"])))
-    elif r["followup_failed"]:
+    elif r["followup_failed"] and r["timeout_ms"] > SLACK_MS:
+        # with a client timeout below the scheduling slack a later call may time out for lack of CPU alone; those executions are judged by TLC only
         out.append(("C12:later-call-fails-after-recovery", "calls %s issued after every connection had recovered did not succeed" % r["followup_failed"][:8]))
     if r["recovered"] and not r["census_ok"]:
         if r["pkt_extra"] > 0 and all(r["census1"][k] == r["census0"][k] for k in ("ping", "cl", "cr", "rc", "other")):
